@@ -146,6 +146,26 @@ class Ctx:
             raise Infra("TLC failed on %s/%s (rc=%d)\n%s" % (module, cfgf, rc, out[-3000:]))
         return r
 
+    def apalache(self, module, obligations, cinit=None, timeout=600):
+        """discharge proof obligations with Apalache on specs/<module>.tla: obligations = [(init, inv, length)].
+        Every obligation must come back NoError; anything else is an infrastructure failure of the model, never a verdict about the code."""
+        d = self.specdir
+        cwd = os.path.join(d, os.path.dirname(module))
+        mod = os.path.basename(module) + ".tla"
+        done = []
+        for init, inv, length in obligations:
+            od = tempfile.mkdtemp(prefix="apa-", dir=self.tmp)
+            cmd = ["apalache-mc", "check", "--init=" + init, "--inv=" + inv, "--length=%d" % length, "--out-dir=" + od, "--run-dir=" + os.path.join(od, "run")]
+            if cinit:
+                cmd.append("--cinit=" + cinit)
+            rc, out, wall = sh(cmd + [mod], cwd=cwd, env=dict(os.environ), timeout=timeout)
+            shutil.rmtree(od, ignore_errors=True)
+            if "The outcome is: NoError" not in out:
+                raise Infra("Apalache did not discharge %s => %s (length %d) of %s\n%s" % (init, inv, length, module, out[-2500:]))
+            done.append("%s => %s (k=%d, %.0fs)" % (init, inv, length, wall))
+        self.cov.setdefault("apalache_obligations", []).extend("%s: %s" % (module, x) for x in done)
+        return done
+
     def tlc_table(self, module, outfile_env="OUT", timeout=600, env=None, cfg=None, workers=None):
         """run a case-generating module; it writes JSON to IOEnv.OUT. Returns parsed JSON."""
         out = os.path.join(self.tmp, os.path.basename(module) + "_cases.json")
